@@ -11,7 +11,8 @@ from fractions import Fraction
 from props.c11 import (vlib, Line, dec, enc, KS, GROUPS, DOF, REP, specs, gen_lines, line_K, eval_requests,
                        run_driver_par, t1, broken_from_t1, summarize_t1)
 
-TOL_VALUE = 1e-12
+# value: differences reach pi - 1.1e-3, where log/exp amplify rounding by ~1/(pi - angle) <= 1e3
+TOL_VALUE = 1e-11
 TOL_DERIV = 1e-9
 QUAT = {'SO3': [(0, 4)], 'SE2': [], 'SE3': [(3, 7)], 'B[SO3,T3]': [(0, 4)], 'T3': []}
 FN = 'BSpline::operator()'
@@ -376,6 +377,9 @@ class C13:
             e = [dec(w, 'f64') for w in rep.split()]
             if kind == 'equiv':
                 n_eq += 1
+                # body derivatives are compared in u-units (vel*dt, acc*dt^2), like everywhere else
+                (_, v0, a0), (_, v1, a1) = c.split(l), c.split(ev)
+                e = [e[0], vdiff(v1, v0, c.dt), vdiff(a1, a0, c.dt ** 2)]
                 for d, (nm, tol) in enumerate((('value', 1e-11), ('vel', TOL_DERIV), ('acc', TOL_DERIV))):
                     k = f'equivariance|{nm}'
                     worst[k] = max(worst.get(k, 0.0), e[d])
